@@ -69,14 +69,25 @@ pub fn stress_one(threads: usize, seed: u64, warm: bool, calls: usize) {
     }
     let barrier = Arc::new(Barrier::new(threads));
     let mut hs = vec![];
+    // in some runs thread 0 is an application that keeps adding its own tags to the shared context and formats values
+    // carrying them, while the other threads (re-)register the standard tags and format: what it wrote must stay written
+    let writer = seed % 4 == 2 || seed % 4 == 3;
     for t in 0..threads {
         let (es, barrier) = (es.clone(), barrier.clone());
         hs.push(std::thread::spawn(move || {
             let mut rng = crate::rng::Rng::new(seed ^ (t as u64).wrapping_mul(0x9E3779B97F4A7C15));
             let mut out = vec![];
             barrier.wait();
+            if writer && t == 0 {
+                for k in 0..calls * 8 {
+                    let r = std::panic::catch_unwind(|| custom_round(k));
+                    match r { Ok(true) => out.push(format!("custom {} {} kept", t, k)), Ok(false) => out.push(format!("custom {} {} lost", t, k)), Err(_) => out.push(format!("panic {} custom {}", t, k)) }
+                }
+                return out;
+            }
             for _ in 0..calls {
-                let op = OPS[rng.below(OPS.len())];
+                // next to a writer, registration is what races with it
+                let op = if writer && rng.chance(1, 2) { "register_tags" } else { OPS[rng.below(OPS.len())] };
                 let i = rng.below(es.len());
                 let r = std::panic::catch_unwind(|| run_op_bytes(op, &es[i]));
                 match r { Ok(text) => out.push(format!("call {} {} {} {:016x}", t, op, i, fnv(&text))), Err(_) => out.push(format!("panic {} {} {}", t, op, i)) }
@@ -86,6 +97,17 @@ pub fn stress_one(threads: usize, seed: u64, warm: bool, calls: usize) {
     }
     for h in hs { match h.join() { Ok(lines) => for l in lines { println!("{}", l); }, Err(_) => println!("thread-died") } }
     println!("done");
+}
+
+/// one round of an application that extends the shared format context: add a tag of its own, then format a value carrying
+/// it; run alone this always shows the tag's name
+fn custom_round(k: usize) -> bool {
+    let tagv = 800_000 + k as u64;
+    let name = format!("app-{}", k);
+    bc_envelope::with_format_context_mut!(|ctx: &mut bc_envelope::FormatContext| { ctx.tags_mut().insert(Tag::new(tagv, name.clone())); });
+    let e = Envelope::new(CBOR::to_tagged_value(tagv, "payload"));
+    let annotated = e.diagnostic_annotated();
+    annotated.contains(&name)
 }
 
 /// envelopes cross threads as bytes (the default build's `Envelope` is not `Send`)
@@ -164,6 +186,7 @@ pub fn campaign(outdir: &str, seed: u64, thorough: bool) {
                         let ok = if registered.contains(t[1]) || warm { after.contains(&key) || (warm && before.contains(&key) && !registered.contains(t[1])) } else { before.contains(&key) || after.contains(&key) };
                         if !ok { mismatches.push(format!("threads={} seed={} warm={}: {}", threads, s, warm, l)); }
                     }
+                    if t[0] == "custom" && t.len() == 4 { calls_checked += 1; if t[3] != "kept" { mismatches.push(format!("threads={} seed={} warm={}: a tag the thread itself added to the format context is gone when it formats: {}", threads, s, warm, l)); } }
                     if l.starts_with("panic ") || l == "thread-died" { panics.push(format!("threads={} seed={} warm={}: {}", threads, s, warm, l)); }
                 }
                 if samples.len() < 3 { samples.push(format!("threads={} warm={} -> {}", threads, warm, out.lines().take(4).collect::<Vec<_>>().join(" | "))); }
